@@ -446,6 +446,9 @@ class OpaqueString(Plugin):
             if nm in ('rfind', 'find_last_of'): raise Unsupported('std::string::%s (in %s)' % (nm, unit.cur))
             return 'v_str_find(%s, %s, %s)' % (f, pos, ln)
         if nm == 'compare': return '((void)%s, v_nondet_int())' % f
+        if nm == 'at' and len(args) == 1:
+            unit.stmt_may_throw = True
+            return 'v_str_at(%s, %s)' % (f, unit.expr(args[0]))          # bounds-checked access: std::out_of_range beyond size(); the character itself is abstract
         if nm == 'clear': return 'v_str_clear(%s)' % f
         if nm in ('pop_back',): return 'v_str_pop_back(%s)' % f
         if nm in ('erase',): return 'v_str_erase(%s, %s)' % (f, ', '.join(unit.expr(a) for a in args))
